@@ -24,7 +24,7 @@
 From Coq Require Import List NArith Bool Arith.
 From Atlas Require Import Base.Bytes Base.Stutter Exec.ExecModel Exec.ExecProofs Exec.StepProofs
   Exec.PendingModel Exec.PendingProofs Exec.RunModel Exec.TxModel Exec.TxProofs Exec.RunProofs
-  Exec.ReuseModel Exec.ReuseProofs Exec.StoreModel Exec.StoreTxModel Exec.StoreTxProofs.
+  Exec.ReuseModel Exec.ReuseProofs Exec.StoreModel Exec.StoreTxModel Exec.StoreTxProofs Exec.StoreTxDirProofs Exec.StoreTxAllProofs.
 Import ListNotations.
 
 (** The first failing file ends the run: nothing of the later files is touched. *)
@@ -170,6 +170,58 @@ End Hist.
 
 Print Assumptions C09_resume_store.
 Print Assumptions C09_never_overclaims_store.
+
+(** ** ... and for directories WITH per-file `atlas:txmode` directives, under
+    --tx-mode none | file (goal: the run theorems with [mode_for] per file).
+
+    [tfull]: the directory, every file with its directive (none / `none` /
+    `file` / an invalid one: then the run stops there with an error); files
+    strictly sorted by version, checkpoint files allowed. Every run has its own
+    global mode (none or file), count and fault stream. A file whose effective
+    mode is `none` runs on the connection (what ran stays); any other file runs
+    in its own transaction, committed when Execute succeeds and rolled back
+    (statements AND revision writes) when it fails. After ANY such history the
+    COMMITTED database satisfies the resume statement: its journal is the plan up
+    to [E], in order, statement i executed [1 + reps[i]] times in a row, the
+    repeats bounded by the failed upserts directly after a statement; its
+    revisions claim the plan up to [P], [P <= E <= P + 1] -- so the next run
+    continues at the first statement that is not recorded and never claims more
+    than was executed. *)
+Theorem C09_resume_store_directives :
+  forall (hash : Type) (heq : hash -> hash -> bool) (HS : bytes -> hash),
+  (forall a b, heq a b = true <-> a = b) ->
+  forall tfull : list tfile, sorted_files (map tf_file tfull) ->
+  forall rs : list m_run, Forall (mrun_dir_on tfull) rs ->
+  let all := from_last_ckpt (map tf_file tfull) in
+  let outs := m_history hash heq HS rs (mkSdb [] []) in
+  exists P E reps,
+    P <= E /\ E <= P + 1 /\ E <= length (plan all) /\ length reps = E /\
+    s_journal (m_final hash outs (mkSdb [] [])) = expand (firstn E (plan all)) reps /\
+    list_sum reps <= m_wf hash outs /\
+    claimed_plan hash all (s_tbl (m_final hash outs (mkSdb [] []))) = firstn P (plan all).
+Proof. exact resume_store_dir_full. Qed.
+Print Assumptions C09_resume_store_directives.
+
+(** ... and with ANY --tx-mode per run (none | file | all). Under --tx-mode all
+    the chosen files run in ONE transaction ([driverFor] re-uses the open one,
+    [mayCommit] does nothing), committed by [mux.commit()] after the loop when
+    every file succeeded and discarded otherwise (a file directive other than the
+    global mode is an error there). Same conclusion for the committed database
+    after any history in which every run picks its own mode, count and faults. *)
+Theorem C09_resume_store_any_mode :
+  forall (hash : Type) (heq : hash -> hash -> bool) (HS : bytes -> hash),
+  (forall a b, heq a b = true <-> a = b) ->
+  forall tfull : list tfile, sorted_files (map tf_file tfull) ->
+  forall rs : list m_run, Forall (mrun_any_on tfull) rs ->
+  let all := from_last_ckpt (map tf_file tfull) in
+  let outs := m_history hash heq HS rs (mkSdb [] []) in
+  exists P E reps,
+    P <= E /\ E <= P + 1 /\ E <= length (plan all) /\ length reps = E /\
+    s_journal (m_final hash outs (mkSdb [] [])) = expand (firstn E (plan all)) reps /\
+    list_sum reps <= m_wf hash outs /\
+    claimed_plan hash all (s_tbl (m_final hash outs (mkSdb [] []))) = firstn P (plan all).
+Proof. exact resume_store_any_full. Qed.
+Print Assumptions C09_resume_store_any_mode.
 Print Assumptions C09_stop_on_fault.
 Print Assumptions C09_never_overclaims.
 Print Assumptions C09_resume.
@@ -209,6 +261,40 @@ Proof.
 Qed.
 Print Assumptions C09_executor_reuse.
 
+(** [ExecuteTo(v)] is [ExecuteN] with a count: for a version before a checkpoint
+    file it is [ExecuteN(0)] over the directory truncated after [v] (and the
+    executor is left as it was); otherwise it is [ExecuteN(i+1)] over the
+    executor's directory, [i] = position of [v] among the pending files -- and
+    when [v] is not among the pending files no statement is executed. So every
+    ExecuteTo call is a [run] of the history theorems above (any count). *)
+Theorem C09_execute_to_before_checkpoint :
+  forall (hash : Type) (heq : hash -> hash -> bool) (HS : bytes -> hash)
+         (e : executor) v (t : list (rev hash)) fs idx,
+  files_last_index (version_is v) (e_dir e) = Some idx ->
+  existsb f_ckpt (skipn (S idx) (e_dir e)) = true ->
+  execute_to hash heq HS e v t fs =
+  as_run hash e (execute_n hash heq HS (e_cfg e) 0 (firstn (S idx) (e_dir e)) t fs).
+Proof. exact execute_to_before_checkpoint. Qed.
+Print Assumptions C09_execute_to_before_checkpoint.
+
+Theorem C09_execute_to_bounded :
+  forall (hash : Type) (heq : hash -> hash -> bool) (HS : bytes -> hash)
+         (e : executor) v (t : list (rev hash)) fs idx,
+  files_last_index (version_is v) (e_dir e) = Some idx ->
+  existsb f_ckpt (skipn (S idx) (e_dir e)) = false ->
+  match fst (pending_of hash e t) with
+  | PFiles files =>
+      match files_last_index (version_is v) files with
+      | Some i => execute_to hash heq HS e v t fs = as_run hash e (execute_n_of hash heq HS e (S i) t fs)
+      | None =>
+          let '(o, e', t', _, es) := execute_to hash heq HS e v t fs in
+          e' = e /\ exec_events es = [] /\ (o = TNotFound \/ o = TRun (RPend PWriteErr))
+      end
+  | _ => execute_to hash heq HS e v t fs = as_run hash e (execute_n_of hash heq HS e 0 t fs)
+  end.
+Proof. exact execute_to_bounded. Qed.
+Print Assumptions C09_execute_to_bounded.
+
 (** non-vacuity, and why the restore on the ERROR path matters: directory
     1, 2 (checkpoint), 3 (two statements). ExecuteN(0) on a fresh database runs
     2 and 3; the second statement of 3 fails. ExecuteTo("1") -- a version before
@@ -247,6 +333,20 @@ Example C09_executor_reuse_needs_restore :
   session bytes bytes_eqb (fun b => b) leaky ru_e ru_ops [] <>
   session_fresh bytes bytes_eqb (fun b => b) leaky ru_e ru_ops [].
 Proof. split; [vm_compute; reflexivity|]. vm_compute. intros H. discriminate H. Qed.
+
+Example C09_execute_to_nonvacuous :
+  (* "1" lies before the checkpoint file 2: the premises of C09_execute_to_before_checkpoint hold, file 1 runs *)
+  files_last_index (version_is [49%N]) (e_dir ru_e) = Some 0 /\
+  existsb f_ckpt (skipn 1 (e_dir ru_e)) = true /\
+  (let '(o, _, _, _, es) := execute_to bytes bytes_eqb (fun b => b) ru_e [49%N] [] [] in (o, journal es))
+    = (TRun (RExec ODone), [([49%N], [65%N])]) /\
+  (* "3" is the second pending file of a fresh database (pending = 2, 3): ExecuteN(2) *)
+  files_last_index (version_is [51%N]) (e_dir ru_e) = Some 2 /\
+  existsb f_ckpt (skipn 3 (e_dir ru_e)) = false /\
+  fst (pending_of bytes ru_e []) = PFiles [ru_f2; ru_f3] /\
+  (let '(o, _, _, _, es) := execute_to bytes bytes_eqb (fun b => b) ru_e [51%N] [] [] in (o, journal es))
+    = (TRun (RExec ODone), [([50%N], [66%N]); ([51%N], [67%N]); ([51%N], [68%N])]).
+Proof. vm_compute. repeat split; reflexivity. Qed.
 
 (** ** a history that leaves the linear regime: --exec-order non-linear
 
@@ -329,6 +429,52 @@ Example C09_never_overclaims_store_nonvacuous :
   let pre := firstn 2 evs in
   journal pre = [([49%N], [65%N])] /\ claimed_plan bytes ex_all (tbl_of_events bytes pre []) = [].
 Proof. vm_compute. split; reflexivity. Qed.
+
+(** directives: file 1 carries `txmode file`, file 2 none.
+    run 1 (--tx-mode none): statement B of file 1 fails inside its transaction: rolled back, nothing stays;
+    run 2 (--tx-mode file): file 1 commits; the upsert after statement C fails inside file 2's transaction: rolled back;
+    run 3 (--tx-mode none): file 2 on the connection, the upsert after C fails: C stays, unrecorded;
+    run 4: C is executed again (the one allowed repeat), then D. *)
+Definition dx_dir : list tfile :=
+  [ mkTfile (mkFile [49%N] [[65%N]; [66%N]] false) (Some (Some TxFile)) None;
+    plain (mkFile [50%N] [[67%N]; [68%N]] false) ].
+Definition dx_runs : list m_run :=
+  let F := false in let T := true in
+  [ mkMRun TxNone 0 dx_dir [F; F; F; F; F; F; T];
+    mkMRun TxFile 0 dx_dir [F; F; F; F; F; F; F; F; F; F; F; F; T];
+    mkMRun TxNone 0 dx_dir [F; F; F; F; F; T];
+    mkMRun TxNone 0 dx_dir [] ].
+
+Example C09_resume_store_directives_nonvacuous :
+  sorted_files (map tf_file dx_dir) /\ Forall (mrun_dir_on dx_dir) dx_runs /\
+  let outs := m_history bytes bytes_eqb (fun b => b) dx_runs (mkSdb [] []) in
+  map (fun x => (fst (fst x), map snd (s_journal (snd (fst x))),
+                 map (fun r => (r_applied r, r_total r)) (s_tbl (snd (fst x))))) outs =
+  [ (XRun (MFail (SExec OStmtErr)), [], []);
+    (XRun (MFail (SExec OWriteErr)), [[65%N]; [66%N]], [(2, 2)]);
+    (XRun (MFail (SExec OWriteErr)), [[65%N]; [66%N]; [67%N]], [(2, 2); (0, 2)]);
+    (XRun MDone, [[65%N]; [66%N]; [67%N]; [67%N]; [68%N]], [(2, 2); (2, 2)]) ] /\
+  m_wf bytes outs = 2.
+Proof.
+  split; [unfold sorted_files, fver_lt; repeat constructor|].
+  split; [repeat constructor; discriminate|]. vm_compute. split; reflexivity.
+Qed.
+
+(** --tx-mode all: statement C (file 2) fails: the one transaction is discarded, nothing stays;
+    the next run under --tx-mode all commits everything at the end. *)
+Definition ax_runs : list m_run :=
+  let F := false in let T := true in
+  [ mkMRun TxAll 0 (map plain ex_all) [F; F; F; F; F; F; F; F; F; F; F; T];
+    mkMRun TxAll 0 (map plain ex_all) [] ].
+
+Example C09_resume_store_any_mode_nonvacuous :
+  Forall (mrun_any_on (map plain ex_all)) ax_runs /\
+  let outs := m_history bytes bytes_eqb (fun b => b) ax_runs (mkSdb [] []) in
+  map (fun x => (fst (fst x), map snd (s_journal (snd (fst x))),
+                 map (fun r => (r_applied r, r_total r)) (s_tbl (snd (fst x))))) outs =
+  [ (XRun (MFail (SExec OStmtErr)), [], []);
+    (XRun MDone, [[65%N]; [66%N]; [67%N]; [68%N]], [(2, 2); (2, 2)]) ].
+Proof. split; [repeat constructor|]. vm_compute. reflexivity. Qed.
 
 Example C09_stop_nonvacuous :
   fst (fst (fst (execute bytes bytes_eqb (fun b => b) (mkFile [49%N] [[65%N]] false) [] [false; true]))) = OStmtErr.
